@@ -142,6 +142,25 @@ for where in ('none', 'target', 'simulated', 'both', 'disjoint'):
 """, "expect": "the degrees of freedom count exactly the points that enter the sum (target and simulated value both numbers)"}
 
 
+def isel_slices(p, v):
+    """{dimension name: slice object} of an `x.isel(...)` boundary value, however the indexers were passed: a mapping by keyword or by
+    position, or one keyword per dimension. None when the call has another form."""
+    args, kws = list(v.info.get("args") or []), dict(v.info.get("kwargs") or {})
+    src = None
+    if len(args) == 1 and not kws:
+        src = args[0]
+    elif not args and set(kws) == {"indexers"}:
+        src = kws["indexers"]
+    elif not args and kws and "indexers" not in kws:
+        return {k: x for k, x in kws.items()}
+    if src is None:
+        return None
+    d = p.ex.try_dict(src)
+    if d is None or not all(isinstance(k, VStr) and isinstance(k.v, str) for k, _ in d):
+        return None
+    return {k.v: x for k, x in d}
+
+
 def formula_unit(fname, spec, chi2=False):
     def un(u: Unit):
         fi = u.fn(f"{FIT}::{fname}")
@@ -444,11 +463,10 @@ def sim_data(u: Unit):
                 sel = None
                 if has_range:
                     fn_ = v.info.get("fn") if isinstance(v, VOpaque) else None
-                    ok_isel = fn_ is not None and str(fn_.info.get("attr")) == "isel" and set(v.info.get("kwargs", {})) == {"indexers"} and not v.info.get("args")
-                    d = p.ex.try_dict(v.info["kwargs"]["indexers"]) if ok_isel else None
+                    sl_ = isel_slices(p, v) if fn_ is not None and str(fn_.info.get("attr")) == "isel" else None
+                    ok_isel = sl_ is not None
                     want = p.st.cell(hold["rng"]).fields
-                    ok_dict = d is not None and {k.v: x for k, x in d} .keys() == {"time", "y", "x"} and all(
-                        {"time": want["time"], "y": want["row"], "x": want["col"]}[k.v] is x for k, x in d)
+                    ok_dict = ok_isel and sl_.keys() == {"time", "y", "x"} and all({"time": want["time"], "y": want["row"], "x": want["col"]}[k] is x for k, x in sl_.items())
                     u.oblige(p, f"sim_data.restricted_to_result_range[{out}]", bool(ok_isel and ok_dict), {}, FIT_REPLAY)
                     sel = fn_.info.get("of") if ok_isel else None
                 else:
@@ -569,11 +587,11 @@ def init_unit(u: Unit):
                 u.oblige(p, f"init.targets_from_declared_files[{tag}]", bool(len(tcalls) == 1), {}, FIT_REPLAY)
                 atd = me.get("all_target_data")
                 ok = isinstance(atd, VOpaque) and atd.info.get("fn") is not None and str(atd.info["fn"].info.get("attr")) == "isel" and isinstance(atd.info["fn"].info.get("of"), VOpaque) \
-                    and atd.info["fn"].info["of"].info.get("label") == "targets" and set(atd.info.get("kwargs", {})) == {"indexers"}
+                    and atd.info["fn"].info["of"].info.get("label") == "targets"
                 if ok:
-                    d = p.ex.try_dict(atd.info["kwargs"]["indexers"])
+                    sl_ = isel_slices(p, atd)
                     want = st.cell(h["trange"]).fields
-                    ok = d is not None and {k.v for k, _ in d} == {"y", "x"} and all({"y": want["row"], "x": want["col"]}[k.v] is x for k, x in d)
+                    ok = sl_ is not None and set(sl_) == {"y", "x"} and all({"y": want["row"], "x": want["col"]}[k] is x for k, x in sl_.items())
                 u.oblige(p, f"init.targets_restricted_to_target_range[{tag}]", bool(ok), {}, FIT_REPLAY)
                 ps_ = me.get("pipeline_seed")
                 u.oblige(p, f"init.seed_and_layout_kept[{tag}]", bool(isinstance(ps_, VInt) and z3.eq(z_int(ps_.v), z3.Int("seed")) and isinstance(me.get("_with_inherited_coords"), VBool)
@@ -597,13 +615,17 @@ def init_unit(u: Unit):
                 elif wkind == "files":
                     w = me.get("weighting_from_file")
                     okw = isinstance(w, VOpaque) and w.info.get("fn") is not None and str(w.info["fn"].info.get("attr")) == "isel" and \
-                        any(c[2].get("filenames") is h["wfiles"] and w.info["fn"].info.get("of") is not None for c in cp)
+                        any(c[2].get("filenames", c[1][0] if c[1] else None) is h["wfiles"] and w.info["fn"].info.get("of") is not None for c in cp)
                     u.oblige(p, f"init.declared_weights_kept[{tag}]", bool(okw), {}, FIT_REPLAY)
                     # the weight maps multiply (simulated - target) element by element: they are the TARGET's companions and are
                     # cut with the declared TARGET range (rows / columns), whichever way isel receives the slices
                     sl = None
-                    if okw and not w.info.get("args"):
+                    if okw and len(w.info.get("args") or []) <= 1:
                         kws = dict(w.info.get("kwargs", {}))
+                        if w.info.get("args") and not kws:              # isel(indexers) given by position
+                            kws = {"indexers": w.info["args"][0]}
+                        elif w.info.get("args"):
+                            kws = {"?": None}
                         if set(kws) == {"indexers"}:
                             d = p.ex.try_dict(kws["indexers"])
                             sl = {k.v: x for k, x in d} if d is not None and all(isinstance(k, VStr) for k, _ in d) else None
